@@ -62,6 +62,9 @@ type Contract struct {
 	Pos      string
 	Ghost    []GhostUpd
 	Allocates bool
+	HavocAll    bool     // `havocs [except T.f, ...]`: the callee may change every heap location except the named type-level fields
+	HavocExcept []Clause
+	Partial     []string // `partial nopanic pre ...`: obligation kinds assumed, not checked, in this unit
 	Each      []string // lemma parameters ranging over all declared constants of their type
 	UseBody   []string // callees whose bodies are executed in this unit instead of their contracts
 	TrustCalls []string // function-valued parameters/fields whose calls are assumed not to touch the state under contract
@@ -434,7 +437,7 @@ func stripSpecPrefix(line string) (string, bool) {
 
 var clauseKeywords = map[string]bool{"requires": true, "ensures": true, "modifies": true, "loop": true, "inline": true,
 	"opaque": true, "trusted": true, "abstract": true, "func": true, "lemma": true, "pure": true, "assert": true,
-	"bounded": true, "ghost": true, "noframe": true, "allocates": true, "each": true, "usebody": true, "uses": true, "hide": true, "preserves": true, "cases": true, "abstractrem": true, "trustcall": true}
+	"bounded": true, "ghost": true, "noframe": true, "allocates": true, "each": true, "usebody": true, "uses": true, "hide": true, "preserves": true, "cases": true, "abstractrem": true, "trustcall": true, "havocs": true, "partial": true}
 
 // ParseContracts scans a Go source file for //@ blocks.
 func ParseContracts(fset *token.FileSet, filename string, src []byte, cs *ContractSet) error {
@@ -586,6 +589,20 @@ func ParseContracts(fset *token.FileSet, filename string, src []byte, cs *Contra
 				cur.UseBody = append(cur.UseBody, strings.Fields(strings.ReplaceAll(rest, ",", " "))...)
 			case "allocates":
 				cur.Allocates = true
+			case "partial":
+				cur.Partial = append(cur.Partial, strings.Fields(strings.ReplaceAll(rest, ",", " "))...)
+			case "havocs":
+				cur.HavocAll = true
+				rest = strings.TrimSpace(strings.TrimPrefix(strings.TrimSpace(rest), "except"))
+				if rest != "" {
+					for _, part := range splitTopLevel(rest) {
+						c, err := mkClause(part)
+						if err != nil {
+							return err
+						}
+						cur.HavocExcept = append(cur.HavocExcept, c)
+					}
+				}
 			case "bounded":
 				n, err := strconv.Atoi(rest)
 				if err != nil {
